@@ -152,6 +152,14 @@ func (e *engine) planBoth(c *Case, store *Config, stream string) planOutcome {
 		}
 		return out
 	case "err":
+		if strings.Contains(real.Msg, "not defined in Netspoc config") {
+			// errlog.Abort caught by drc.Main (files mode)
+			out.agree = mf[0] == "ABORT"
+			if !out.agree {
+				e.res.Disagree(stream+": abort", input, real.Msg, model)
+			}
+			return out
+		}
 		// only the diagnostics of checkRaw are modelled
 		if i := strings.Index(real.Msg, "Must "); i >= 0 && mf[0] == "ERR" {
 			want := real.Msg[i:]
@@ -169,7 +177,7 @@ func (e *engine) planBoth(c *Case, store *Config, stream string) planOutcome {
 		return out
 	}
 	want := encCalls(real.Calls)
-	if mf[1] != want && dupContentTie(store) {
+	if mf[1] != want && dupContentTie(store) && c.Stream != "bigties" {
 		// unrepaired findGroupOnDevice: any of the identical groups may be taken; retry
 		for i := 0; i < 40 && mf[1] != want; i++ {
 			if c.Mode == "files" {
